@@ -78,7 +78,7 @@ var avoid = map[string]bool{
 	"const-conversion-keeps-int-repr": true, // float64(3) keeps the integer representation (float64(3) % 2 accepted, float64(3)/2 = 1)
 	"float-const-to-unsigned-not-integral": true, // var x uint8 = 0.5 + 1.0 accepted (computed float constants, unsigned types)
 	"typed-const-keeps-untyped-repr": true, // const c int = 2.0 keeps the float representation (c % 3 rejected, ^c panics)
-	"const-shift-float-kind":   true, // 2.0 << 3 stays an untyped float constant
+	"const-shift-float-kind":   false, // 2.0 << 3 stayed an untyped float constant (repaired: fix commit 5702f15)
 }
 
 func numeric(c string) bool { return c == "int" || c == "float" }
